@@ -52,4 +52,12 @@ func fn() {
 	var z interface{}
 	if z == true {
 	}
+
+	var a, b int
+	if a < b == false { //@ diag(`simplified to !(a < b)`)
+	}
+	if a < b != true { //@ diag(`simplified to !(a < b)`)
+	}
+	if a < b == true { //@ diag(`simplified to a < b`)
+	}
 }
